@@ -239,8 +239,11 @@ private:
     auto oldState = opState_.fetch_and(~stoppedBit, std::memory_order_release);
     UNIFEX_VERIF_POINT(235);
 
-    if (op_count(oldState) == 0) {
-      // there are no outstanding operations to wait for
+    if (!is_stopping(oldState) && op_count(oldState) == 0) {
+      // we are the call that stopped the scope and there are no outstanding
+      // operations to wait for; a later call must not signal again (the last
+      // outstanding operation does), or a joiner could destroy the scope
+      // while that operation is still about to touch evt_
       evt_.set();
     }
   }
